@@ -14,6 +14,9 @@ from . import source as S
 
 
 HASHABLE = z3.Function("HASHABLE", U, BoolS)
+# objects that are (sub)objects of a document parsed from disk (A-PYD: a
+# parsed document is a fresh object graph, disjoint from the program's)
+ISDISK = z3.Function("ISDISK", IntS, BoolS)
 
 
 class Unsupported(Exception):
@@ -579,6 +582,8 @@ class Engine:
     def alloc(self, st: State, cls: str) -> VRef:
         r = st.next_ref
         st.next_ref = r + 1
+        # objects created by the program are not parsed-document objects
+        st.assume(z3.Not(ISDISK(r)))
         return VRef(r, cls)
 
     def havoc_heap(self, st: State, keys):
